@@ -1,12 +1,20 @@
 """C20 — configuration means what the documentation says, in both syntaxes.
 
 spec/Config.tla is the documented option -> field table with defaults (per entry kind, per
-syntax) and the documented meaning of configuration-file interpolation.  TLC enumerates
-option subsets (all singletons, all pairs, seeded random larger subsets) and token texts,
-and prints every case with the entry / text it must produce.  Each case is rendered as a TOML
-section, as an init command inside the configuration file, and as an admin command, loaded by
-the real code (readConfigFile -> toml.Decode -> cfg.InitTable; imperatives.Apply) on a real
-table, and every field of the resulting entry is read back and compared with TLC's record."""
+syntax), the documented meaning of a configuration with SEVERAL entries of one kind (each entry
+means what it means on its own, in the order written) and the documented meaning of
+configuration-file interpolation.  TLC enumerates
+  * single entries: option subsets (all singletons, all pairs, seeded random larger subsets),
+  * lists of 2-3 entries of one section kind ([[route]] sections of possibly different route types
+    incl. grafanaNet, [[aggregation]], [[rewriter]], blacklist lines): every (option, position)
+    pair "an earlier entry sets the option to a non-default value, a later entry of the same or
+    another type leaves it out", and seeded random lists,
+  * token texts,
+and prints every case with the entries / text it must produce.  Each list is rendered as ONE TOML
+document with several sections, as ONE configuration file with several init commands, and as a
+sequence of admin commands, loaded by the real code (readConfigFile -> toml.Decode ->
+cfg.InitTable; imperatives.Apply) on a real table, and every field of every resulting entry is read
+back and compared with TLC's record; the three syntaxes must agree."""
 import json, random
 from checks import conflib as L
 from vlib.core import Machinery
@@ -24,47 +32,99 @@ def run(ctx):
         env.cleanup()
 
 
+def generation_jobs(ctx, q):
+    """[(name, consts, function)]: the TLC runs that enumerate cases, lists and texts"""
+    B = L.base_consts
+    bools = set(L.BOOL_NAMES)
+    toks = ["$", "{", "}", "HOST", "GRAFANA_NET_ADDR", "GRAFANA_NET_API_KEY", "GRAFANA_NET_USER_ID", "1", "x", "HOSTNAME",
+            ".", ")", " "]
+    jobs = []
+
+    def cases(name, consts, **kw):
+        jobs.append((name, consts, lambda: L.gen_cases(ctx, consts, **kw)))
+
+    def lists(name, consts, **kw):
+        jobs.append((name, consts, lambda: L.gen_lists(ctx, consts, **kw)))
+
+    def texts(name, alphabet, maxlen, **kw):
+        jobs.append((name, dict(Mode="expand", Alphabet=sorted(alphabet), MaxLen=maxlen),
+                     lambda: L.gen_texts(ctx, alphabet, maxlen, **kw)))
+    if q:
+        # all singletons of every kind / route type; all pairs for one representative shape per kind
+        cases("cases:pairs", B(MaxDests=2, MaxOpts=1, DeepKinds={"route", "gnet", "rewriter"},
+                               DeepTypes={"sendAllMatch"}, DeepDests=2, DeepOpts=2))
+        # larger subsets: only kinds with >= 7 options, so that every behaviour gets deep
+        cases("cases:random", B(Kinds={"route", "gnet", "agg"}, MaxDests=3, NVals=2, MaxOpts=99), simulate="num=4", depth=9)
+        # every (option, position) pair: set early, left out later.  Booleans at every pair of positions of
+        # lists of 2 and 3 (any representative type in the remaining position), the others in lists of two
+        lists("lists:leak", B(Mode="leak", Kinds={"route", "gnet", "agg", "rewriter"}, RouteTypes={"sendAllMatch"},
+                              MaxDests=1, MaxList=3, FullNames=bools))
+        # seeded random lists of 1..3 entries, every kind, about 6 options per entry (1-3 destinations)
+        lists("lists:random", B(Mode="rlists", MaxDests=3, NVals=2, MaxList=3, RandK=6, RandOpts=6, RandN=10))
+        texts("texts:all", ["$", "{", "}", "HOST", "GRAFANA_NET_ADDR", "1", "x", "."], 4)
+        texts("texts:random", toks, 12, simulate="num=100", depth=13)
+    else:
+        cases("cases:pairs", B(MaxDests=3, MaxOpts=2, NVals=1), timeout=3000)
+        cases("cases:pairs2", B(Kinds={"gnet", "agg"}, MaxOpts=2, NVals=2), timeout=3000)
+        cases("cases:random", B(Kinds={"route", "gnet", "agg"}, MaxDests=3, NVals=2, MaxOpts=99),
+              simulate="num=8", depth=14, timeout=3000)
+        # every option at every pair of positions for the booleans and one option of every other type; the rest in
+        # lists of two; setter, omitter and third entry of every representative type
+        lists("lists:leak", B(Mode="leak", Kinds={"route", "gnet", "agg", "rewriter"},
+                              RouteTypes={"sendAllMatch", "consistentHashing"}, MaxDests=2, MaxList=3,
+                              FullNames=bools | {"prefix", "substr", "flush", "concurrency", "errBackoffFactor", "not"}),
+              timeout=3000)
+        lists("lists:random", B(Mode="rlists", MaxDests=3, NVals=2, MaxList=3, RandK=12, RandOpts=6, RandN=60), timeout=3000)
+        lists("lists:random2", B(Mode="rlists", Kinds={"route", "gnet"}, MaxDests=2, NVals=2, MaxList=3, RandK=12,
+                                 RandOpts=3, RandN=80), timeout=3000)
+        texts("texts:all", ["$", "{", "}", "HOST", "GRAFANA_NET_USER_ID", "1", "x", ".", ")"], 5, timeout=3000)
+        texts("texts:random", toks + ["-", "/", "^", "("], 16, simulate="num=200", depth=17, timeout=3000)
+    return jobs
+
+
 def _run(ctx, q, rng, env):
     # 0. the table's own sanity invariants are not vacuous
     L.nonvacuity(ctx, ["swap_buf"] if q else L.DEVIATIONS_CASES)
 
-    # 1. TLC enumerates the cases with the expected entries
-    cases = []
-    if q:
-        # all singletons of every kind / route type; all pairs for one representative shape per kind
-        cases += L.gen_cases(ctx, L.base_consts(MaxDests=2, MaxOpts=1, DeepKinds={"route", "gnet", "rewriter"},
-                                                DeepTypes={"sendAllMatch"}, DeepDests=2, DeepOpts=2))
-        # larger subsets: only kinds with >= 7 options, so that every behaviour gets deep
-        cases += L.gen_cases(ctx, L.base_consts(Kinds={"route", "gnet", "agg"}, MaxDests=3, NVals=2, MaxOpts=99),
-                             simulate="num=4", depth=9)
-    else:
-        cases += L.gen_cases(ctx, L.base_consts(MaxDests=3, MaxOpts=2, NVals=1), timeout=3000)
-        cases += L.gen_cases(ctx, L.base_consts(Kinds={"gnet", "agg"}, MaxOpts=2, NVals=2), timeout=3000)
-        cases += L.gen_cases(ctx, L.base_consts(Kinds={"route", "gnet", "agg"}, MaxDests=3, NVals=2, MaxOpts=99),
-                             simulate="num=8", depth=14, timeout=3000)
-    ngen = len(cases)
-    cases = L.dedup(cases)
-    ctx.log("cases: %d generated, %d distinct" % (ngen, len(cases)))
-    sizes = {}
-    for c in cases:
-        sizes[len(c["opts"])] = sizes.get(len(c["opts"]), 0) + 1
-    ctx.log("cases by number of options set: %s" % sorted(sizes.items()))
+    # 1. TLC enumerates single entries and lists of entries with the expected entries, and texts with
+    #    the expected interpolation (independent runs, side by side)
+    jobs = generation_jobs(ctx, q)
+    done = L.parallel(ctx, [(name, fn) for name, _, fn in jobs], par=5)
+    lists, texts = [], []
+    nsingle = 0
+    for name, consts, _ in jobs:
+        r, out = done[name]
+        L.account(ctx, r, consts)
+        ctx.log("%s: %d generated" % (name, len(out)))
+        if not out:
+            raise Machinery("TLC run %s generated nothing; log %s" % (name, r["log"]))
+        if name.startswith("cases:"):
+            lists += [L.wrap(c) for c in out]
+            nsingle += len(out)
+        elif name.startswith("lists:"):
+            for l in out:
+                l["origin"] = name[6:]
+            lists += out
+        else:
+            texts += out
+    ngen = len(lists)
+    lists = L.dedup(lists)
+    multi = [l for l in lists if len(l["entries"]) > 1]
+    ctx.log("cases: %d generated, %d distinct (%d with several entries)" % (ngen, len(lists), len(multi)))
+    sizes, shapes = {}, {}
+    for l in lists:
+        for c in l["entries"]:
+            sizes[len(c["opts"])] = sizes.get(len(c["opts"]), 0) + 1
+        k = "%s x%d" % (l["section"], len(l["entries"]))
+        shapes[k] = shapes.get(k, 0) + 1
+    ctx.log("entries by number of options set: %s" % sorted(sizes.items()))
+    ctx.log("lists by section kind and length: %s" % sorted(shapes.items()))
     ctx.cov["cases_by_number_of_options"] = {str(k): v for k, v in sorted(sizes.items())}
+    ctx.cov["lists_by_section_and_length"] = dict(sorted(shapes.items()))
     if max(sizes) < 5:
-        raise Machinery("vacuous generation: no case with 5 or more options (sizes %s)" % sizes)
-    if not cases:
-        raise Machinery("no cases generated")
+        raise Machinery("vacuous generation: no entry with 5 or more options (sizes %s)" % sizes)
+    check_leak_coverage(ctx, multi)
 
-    # 2. TLC enumerates texts with the expected interpolation
-    if q:
-        texts = L.gen_texts(ctx, ["$", "{", "}", "HOST", "GRAFANA_NET_ADDR", "1", "x", "."], 4)
-        texts += L.gen_texts(ctx, ["$", "{", "}", "HOST", "GRAFANA_NET_ADDR", "GRAFANA_NET_API_KEY", "GRAFANA_NET_USER_ID",
-                                   "1", "x", "HOSTNAME", ".", ")", " "], 12, simulate="num=100", depth=13)
-    else:
-        texts = L.gen_texts(ctx, ["$", "{", "}", "HOST", "GRAFANA_NET_USER_ID", "1", "x", ".", ")"], 5, timeout=3000)
-        texts += L.gen_texts(ctx, ["$", "{", "}", "HOST", "GRAFANA_NET_ADDR", "GRAFANA_NET_API_KEY", "GRAFANA_NET_USER_ID",
-                                   "1", "x", "HOSTNAME", ".", ")", " ", "-", "/", "^", "("], 16,
-                             simulate="num=200", depth=17, timeout=3000)
     seen, tl = set(), []
     for t in texts:
         k = json.dumps(t["text"])
@@ -74,29 +134,28 @@ def _run(ctx, q, rng, env):
     texts = tl
     ctx.log("texts: %d distinct with a '$'" % len(texts))
 
-    # 3. render
-    items, loads = [], []          # stage-1 inputs, stage-2 inputs
-    for i, c in enumerate(cases):
-        c["id"] = i
+    # 3. render: every list as one TOML document, one file of init commands, one command sequence
+    items = []          # stage-1 inputs
+    for i, l in enumerate(lists):
+        l["id"] = i
         key = "k%d" % i
-        c["key"] = key
+        l["key"] = key
         crng = random.Random(ctx.seed * 1000003 + i)
-        forms = sorted(c["forms"])
-        c["texts"] = {}
-        for form in forms:
+        l["texts"] = {}
+        for form in sorted(l["forms"]):
             if form == "toml":
-                c["texts"][form] = L.render_toml(c, env, key + "t", crng)
+                l["texts"][form] = L.render_toml(l, env, key + "t", crng)
             elif form == "init":
-                c["texts"][form] = L.render_init(c, env, key + "i", crng)
+                l["texts"][form] = L.render_init(l, env, key + "i", crng)
             else:
-                c["texts"][form] = L.render_cmd(c, env, key + "c", crng)
+                l["texts"][form] = L.render_cmds(l, env, key + "c", crng)
     nid = 0
     idmap = {}
-    for c in cases:
+    for l in lists:
         for form in ("toml", "init"):
-            if form in c["texts"]:
-                items.append(dict(id=nid, text=c["texts"][form]))
-                idmap[nid] = ("case", c["id"], form)
+            if form in l["texts"]:
+                items.append(dict(id=nid, text=l["texts"][form]))
+                idmap[nid] = ("case", l["id"], form)
                 nid += 1
     hdr_id = nid
     items.append(dict(id=nid, text=env.header()))
@@ -126,109 +185,177 @@ def _run(ctx, q, rng, env):
                           dict(tokens=t["text"], got=got, want=want))
     ctx.log("interpolation: %d texts, %d differ" % (len(texts), nbad_text))
 
-    # 5. stage 2: load every form of every case
-    for c in cases:
-        for form, text in c["texts"].items():
-            suffix = {"toml": "t", "init": "i", "cmd": "c"}[form]
-            loads.append(dict(id=c["id"], kind=c["kind"], form=form, key=c["key"] + suffix,
-                              text=text if form == "cmd" else None))
-    # attach expanded texts
+    # 5. stage 2: load every form of every list
     exp_by = {(cid, form): expanded[nid_] for nid_, (what, cid, form) in idmap.items() if what == "case"}
-    for l in loads:
-        if l["form"] != "cmd":
-            l["text"] = exp_by[(l["id"], l["form"])]
+    loads = []
+    for l in lists:
+        gnet = any(c["kind"] == "gnet" for c in l["entries"])
+        for form, text in l["texts"].items():
+            ld = dict(id=l["id"], kind="gnet" if gnet else l["section"], form=form)
+            if form == "cmd":
+                ld["cmds"] = text
+            else:
+                ld["text"] = exp_by[(l["id"], form)]
+            loads.append(ld)
     res = L.run_loader(ctx, env, loads, expanded[hdr_id])
     crash = [v for k_, v in res.items() if k_[0] == "crash"]
     if crash:
         cr = crash[0]
         last = cr.get("last") or {}
-        cc = cases[last["id"]] if "id" in last and last["id"] < len(cases) else None
-        ctx.violation("crash:%s" % (cc["kind"] if cc else "?"),
-                      "the relay code panicked while loading a documented configuration entry",
-                      dict(case=strip(cc) if cc else None, form=last.get("form"), tail=cr["tail"]))
+        ll = lists[last["id"]] if "id" in last and last["id"] < len(lists) else None
+        ctx.violation("crash:%s" % (ll["section"] if ll else "?"),
+                      "the relay code panicked while loading a documented configuration",
+                      dict(case=strip(ll) if ll else None, form=last.get("form"), tail=cr["tail"]))
         ctx.sample(dict(panic=cr["tail"][-300:]))
         return
 
-    # 6. verdicts: TLC's expected record decides, field by field, per form; forms must agree
-    nload = nfield = 0
+    # 6. verdicts: TLC's expected records decide, entry by entry, field by field, per form; forms must agree
+    st = dict(nload=0, nfield=0, nentry=0)
     distinct = set()
-    for c in cases:
-        got = {}
-        for form in sorted(c["texts"]):
-            suffix = {"toml": "t", "init": "i", "cmd": "c"}[form]
-            rec = res.get((c["id"], form))
-            if rec is None:
-                raise Machinery("no record for case %d form %s" % (c["id"], form))
-            nload += 1
-            exp = L.expected(c, form, env, c["key"] + suffix)
-            optnames = "+".join(sorted(set(o["name"] for o in c["opts"]))) or "none"
-            if not rec["ok"]:
-                ctx.violation("rejected:%s:%s:%s" % (c["kind"], form, optnames),
-                              "a documented %s entry is rejected in its %s form: %s" % (c["kind"], form, rec["err"]),
-                              dict(case=strip(c), form=form, text=c["texts"][form], err=rec["err"]))
-                continue
-            if form != "cmd":
-                if rec["instance"] != env.host or rec["spool_dir"] != env.spool:
-                    ctx.violation("header:%s" % form, "instance / spool_dir of the configuration file are read as %r / %r" % (
-                        rec["instance"], rec["spool_dir"]), dict(text=c["texts"][form]))
-            bad = L.compare(exp, rec["entry"])
-            nfield += len(exp)
-            got[form] = rec["entry"]
-            for f, want, g in bad:
-                ctx.violation("field:%s:%s:%s" % (c["kind"], form, strip_dest(f)),
-                              "%s entry, %s form, options {%s}: field %s is %r, documented %r" % (
-                                  c["kind"], form, optnames, f, g, want),
-                              dict(case=strip(c), form=form, text=c["texts"][form], field=f, got=g, want=want))
-        # the syntaxes agree with each other wherever the documentation gives them the same meaning
-        if "toml" in got:
-            for other in ("init", "cmd"):
-                if other not in got:
-                    continue
-                d = c["initdiff"] if other == "init" else c["cmddiff"]
-                skip = set(d) if isinstance(d, dict) else set()
-                for f in got["toml"]:
-                    if f in skip or f in ("key",) or f.endswith(".route"):
-                        continue
-                    if got["toml"][f] != got[other].get(f, "<absent>"):
-                        ctx.violation("disagree:%s:%s:%s" % (c["kind"], other, strip_dest(f)),
-                                      "TOML section and %s form of the same %s entry differ in field %s: %r vs %r" % (
-                                          other, c["kind"], f, got["toml"][f], got[other].get(f)),
-                                      dict(case=strip(c), toml=c["texts"]["toml"], other=c["texts"][other]))
-        if c["opts"]:
-            distinct.add(json.dumps([c["kind"], c["v1"], c["nd"], sorted((o["scope"], o["name"], o["text"]) for o in c["opts"])]))
+    for l in lists:
+        judge(ctx, l, res, env, st)
+        if any(c["opts"] for c in l["entries"]):
+            distinct.add(json.dumps([L.entry_sig(c) for c in l["entries"]]))
 
     # 7. the binding is live: a corrupted read-back record must be flagged by the comparison
-    selftest(ctx, cases, res, env)
+    selftest(ctx, lists, res, env)
+    selftest_lists(ctx, lists, res, env)
 
     cov = ctx.cov
-    cov["evaluations"] = nload + len(texts)
-    cov["fields_compared"] = nfield
+    cov["evaluations"] = st["nload"] + len(texts)
+    cov["fields_compared"] = st["nfield"]
+    cov["entries_compared"] = st["nentry"]
     cov["distinct_nontrivial"] = len(distinct) + len(texts)
-    cov["cases"] = len(cases)
+    cov["cases"] = len(lists)
+    cov["cases_with_several_entries"] = len(multi)
     cov["texts"] = len(texts)
-    cov["rule"] = ("a case = entry kind x variant x set of options with values pairwise distinct over (option, scope) and "
-                   "different from every default; all singletons and pairs enumerated by TLC, larger subsets by "
-                   "TLC -simulate; every case loaded as TOML section, init command (both through readConfigFile) and "
-                   "admin command; distinct_nontrivial = distinct cases with >= 1 option set + distinct token texts "
+    cov["rule"] = ("a case = a list of 1..3 entries of one section kind; an entry = entry kind x variant x set of options with "
+                   "values pairwise distinct over (option, scope, position) and different from every default.  Single "
+                   "entries: all singletons and pairs enumerated by TLC, larger subsets seeded random.  Lists: every "
+                   "(option, position pair) 'set to a non-default value by an earlier entry, left out by a later entry of the "
+                   "same or another type' (booleans incl. the grafanaNet options looked up in the TOML metadata: every pair "
+                   "of positions in lists of 2 and 3), and seeded random lists (TLC Randomization, -seed).  Every case is "
+                   "loaded as one TOML document, one file of init commands (both through readConfigFile) and one sequence "
+                   "of admin commands; distinct_nontrivial = distinct cases with >= 1 option set + distinct token texts "
                    "containing '$' (ambiguous nestings excluded)")
     cov["explanation"] = ("decision-table driven differential check: Config.tla has no behaviour space, TLC evaluates the "
-                          "documented option->field table and the interpolation function on an enumerated argument space "
-                          "and the real loaders are compared with that, field by field; hence level 'other'")
-    big = max(cases, key=lambda c: len(c["opts"]))
-    ctx.sample(dict(kind=big["kind"], type=big["v1"], cmd=big["texts"].get("cmd", big["texts"]["toml"])[:400]))
-    ctx.sample(dict(kind=cases[0]["kind"], toml=cases[0]["texts"]["toml"][-200:]))
+                          "documented option->field table (per entry, and per list of entries) and the interpolation function "
+                          "on an enumerated argument space and the real loaders are compared with that, field by field; hence "
+                          "level 'other'")
+    big = max(lists, key=lambda l: max(len(c["opts"]) for c in l["entries"]))
+    ctx.sample(dict(section=big["section"], cmd=big["texts"].get("cmd", [big["texts"]["toml"]])[0][:400]))
+    if multi:
+        m = max(multi, key=lambda l: (len(l["forms"]), sum(len(c["opts"]) for c in l["entries"])))
+        ctx.sample(dict(section=m["section"], entries=len(m["entries"]), toml=m["texts"]["toml"][-700:]))
+    ctx.sample(dict(section=lists[0]["section"], toml=lists[0]["texts"]["toml"][-200:]))
     if texts:
         t = texts[len(texts) // 2]
         ctx.sample(dict(text=t["raw"], expect=L.expand_expected(t["expect"], env)))
     ctx.assumptions += ["destinations point at 127.0.0.x:1 (nothing listens): the entry is read back, not exercised",
                         "values avoid spaces, quotes and the tokens of the command scanner; explicit empty strings are not generated",
-                        "sub and substr are never given together (the documentation does not say which wins)"]
+                        "sub and substr are never given together (the documentation does not say which wins)",
+                        "one file holds several entries of ONE section kind (mixtures of [[route]], [[aggregation]], "
+                        "[[rewriter]] and blacklist in one file are not generated); TOML keys are spelled as documented"]
     cov["trusted_base"] = ["TLC", "checks/conflib.py rendering of a case as TOML / command text (syntax from the docs)",
                            "harness/conf driver and overlay test (record only)", "destination.VerifFields accessor"]
 
 
-def strip(c):
-    return dict(kind=c["kind"], v1=c["v1"], v2=c["v2"], v3=c["v3"], nd=c["nd"], opts=c["opts"], params=c["params"])
+def check_leak_coverage(ctx, multi):
+    """the generation is not vacuous: for each grafanaNet boolean (the options cfg.InitRoutes looks up in the TOML
+    metadata) every pair of positions i < j of lists of 2 and 3 occurs with 'entry i sets it to the non-default value,
+    grafanaNet entry j leaves it out'"""
+    want = {(o, n, i, j) for o in ("sslverify", "spool", "blocking") for n in (2, 3)
+            for i in range(n) for j in range(i + 1, n)}
+    have = set()
+    for l in multi:
+        es = l["entries"]
+        for i, a in enumerate(es):
+            for o in a["opts"]:
+                if a["kind"] != "gnet" or o["scope"] != "r" or o["text"] != ("false" if o["name"] == "sslverify" else "true"):
+                    continue
+                for j in range(i + 1, len(es)):
+                    if es[j]["kind"] == "gnet" and not any(x["name"] == o["name"] for x in es[j]["opts"]):
+                        have.add((o["name"], len(es), i, j))
+    missing = want - have
+    if missing:
+        raise Machinery("vacuous generation: (option, list length, positions) not generated: %s" % sorted(missing)[:6])
+    ctx.cov["leak_pairs_gnet_booleans"] = len(want)
+
+
+def judge(ctx, l, res, env, st, report=None):
+    """compare what the real code built from list `l` with TLC's records.  `report` (a list) collects the
+    violations instead of reporting them (self-test)."""
+    def viol(sig, what, detail):
+        if report is not None:
+            report.append(sig)
+        else:
+            ctx.violation(sig, what, detail)
+    n = len(l["entries"])
+    sfx = ":multi" if n > 1 else ""       # the entry is not the only one of its file / command sequence
+    got = {}
+    for form in sorted(l["texts"]):
+        suffix = {"toml": "t", "init": "i", "cmd": "c"}[form]
+        rec = res.get((l["id"], form))
+        if rec is None:
+            raise Machinery("no record for case %d form %s" % (l["id"], form))
+        st["nload"] += 1
+        kinds = "+".join(c["kind"] for c in l["entries"])
+        optnames = " | ".join("+".join(sorted(set(o["name"] for o in c["opts"]))) or "none" for c in l["entries"])
+        if not rec["ok"]:
+            viol("rejected:%s:%s:%s" % (kinds, form, optnames),
+                 "a documented %s configuration (%d entr%s) is rejected in its %s form: %s" % (
+                     l["section"], n, "y" if n == 1 else "ies", form, rec["err"]),
+                 dict(case=strip(l), form=form, text=l["texts"][form], err=rec["err"]))
+            continue
+        if form != "cmd":
+            if rec["instance"] != env.host or rec["spool_dir"] != env.spool:
+                viol("header:%s" % form, "instance / spool_dir of the configuration file are read as %r / %r" % (
+                    rec["instance"], rec["spool_dir"]), dict(text=l["texts"][form]))
+        # what the whole file / sequence added to the table
+        bad_added = L.compare(l["added"], rec["added"])
+        st["nfield"] += len(l["added"])
+        for f, want, g in bad_added:
+            viol("field:%s:%s:%s%s" % (kinds, form, f, sfx),
+                 "%s configuration with %d entr%s, %s form: %s is %r, documented %r" % (
+                     l["section"], n, "y" if n == 1 else "ies", form, f, g, want),
+                 dict(case=strip(l), form=form, text=l["texts"][form], field=f, got=g, want=want))
+        if len(rec["entries"]) != n:
+            continue                      # (reported above) the entries cannot be paired
+        got[form] = rec["entries"]
+        for i, c in enumerate(l["entries"]):
+            exp = L.expected(c, form, env, L.entry_key(l["key"] + suffix, i))
+            bad = L.compare(exp, rec["entries"][i])
+            st["nfield"] += len(exp)
+            st["nentry"] += 1
+            for f, want, g in bad:
+                where = "" if n == 1 else "entry %d of %d (%s), " % (i + 1, n, optnames)
+                viol("field:%s:%s:%s%s" % (c["kind"], form, strip_dest(f), sfx),
+                     "%s entry, %s%s form, options {%s}: field %s is %r, documented %r" % (
+                         c["kind"], where, form, "+".join(sorted(set(o["name"] for o in c["opts"]))) or "none", f, g, want),
+                     dict(case=strip(l), entry=i + 1, form=form, text=l["texts"][form], field=f, got=g, want=want))
+    # the syntaxes agree with each other wherever the documentation gives them the same meaning
+    if "toml" in got:
+        for other in ("init", "cmd"):
+            if other not in got:
+                continue
+            for i, c in enumerate(l["entries"]):
+                d = c["initdiff"] if other == "init" else c["cmddiff"]
+                skip = set(d) if isinstance(d, dict) else set()
+                gt, go = got["toml"][i], got[other][i]
+                for f in gt:
+                    if f in skip or f in ("key",) or f.endswith(".route"):
+                        continue
+                    if gt[f] != go.get(f, "<absent>"):
+                        viol("disagree:%s:%s:%s%s" % (c["kind"], other, strip_dest(f), sfx),
+                             "TOML section and %s form of the same %s entry%s differ in field %s: %r vs %r" % (
+                                 other, c["kind"], "" if n == 1 else " (entry %d of %d)" % (i + 1, n), f, gt[f], go.get(f)),
+                             dict(case=strip(l), entry=i + 1, toml=l["texts"]["toml"], other=l["texts"][other]))
+
+
+def strip(l):
+    return dict(section=l["section"], origin=l.get("origin", "single"),
+                entries=[dict(kind=c["kind"], v1=c["v1"], v2=c["v2"], v3=c["v3"], nd=c["nd"], opts=c["opts"],
+                              params=c["params"]) for c in l["entries"]])
 
 
 def strip_dest(f):
@@ -239,7 +366,6 @@ def strip_dest(f):
 
 
 def classify_text(toks):
-    s = "".join(toks)
     for i, t in enumerate(toks):
         if t == "$" and i + 1 < len(toks) and toks[i + 1] == "{":
             rest = toks[i + 2:]
@@ -252,20 +378,25 @@ def classify_text(toks):
     return "other"
 
 
-def selftest(ctx, cases, res, env):
-    for c in cases:
-        if c["kind"] != "route" or "cmd" not in c["texts"]:
+def clean(ctx, l, res, env):
+    rep = []
+    judge(ctx, l, res, env, dict(nload=0, nfield=0, nentry=0), report=rep)
+    return not rep
+
+
+def selftest(ctx, lists, res, env):
+    for l in lists:
+        if len(l["entries"]) != 1 or l["entries"][0]["kind"] != "route" or "cmd" not in l["texts"]:
             continue
-        rec = res.get((c["id"], "cmd"))
-        if not rec or not rec["ok"]:
+        rec = res.get((l["id"], "cmd"))
+        if not rec or not rec["ok"] or len(rec["entries"]) != 1 or not clean(ctx, l, res, env):
             continue
-        exp = L.expected(c, "cmd", env, c["key"] + "c")
-        if L.compare(exp, rec["entry"]):
-            continue
-        e = dict(rec["entry"])
+        c = l["entries"][0]
+        exp = L.expected(c, "cmd", env, L.entry_key(l["key"] + "c", 0))
+        e = dict(rec["entries"][0])
         e["d1.connbuf"], e["d1.spoolbuf"] = e["d1.spoolbuf"], e["d1.connbuf"]
         bad = [f for f, _, _ in L.compare(exp, e)]
-        e2 = dict(rec["entry"])
+        e2 = dict(rec["entries"][0])
         e2["d1.pickle"] = 1 if e2["d1.pickle"] is False else 0
         bad2 = [f for f, _, _ in L.compare(exp, e2)]
         if sorted(bad) != ["d1.connbuf", "d1.spoolbuf"] or bad2 != ["d1.pickle"]:
@@ -273,3 +404,45 @@ def selftest(ctx, cases, res, env):
         ctx.log("binding self-test: corrupted records are flagged")
         return
     ctx.note("binding self-test skipped: no clean carbon route case")
+
+
+def selftest_lists(ctx, lists, res, env):
+    """a read-back record in which a later grafanaNet entry shows the value an earlier entry set (and the later one
+    left out) must be flagged, with the field named; so must two entries in exchanged order"""
+    for l in lists:
+        es = l["entries"]
+        if len(es) < 2 or "toml" not in l["texts"] or not clean(ctx, l, res, env):
+            continue
+        pair = None
+        for i, a in enumerate(es):
+            for o in a["opts"]:
+                if a["kind"] == "gnet" and o["name"] in ("sslverify", "spool", "blocking"):
+                    for j in range(i + 1, len(es)):
+                        if es[j]["kind"] == "gnet" and not any(x["name"] == o["name"] for x in es[j]["opts"]):
+                            pair = (i, j, o["name"])
+        if not pair:
+            continue
+        i, j, name = pair
+        rec = res[(l["id"], "toml")]
+        if rec["entries"][i][name] == rec["entries"][j][name]:
+            continue                  # the explicit value is the default
+        fake = json.loads(json.dumps(rec))
+        fake["entries"][j][name] = rec["entries"][i][name]
+        rep = []
+        judge(ctx, l, {**{(l["id"], f): res[(l["id"], f)] for f in l["texts"]}, (l["id"], "toml"): fake}, env,
+              dict(nload=0, nfield=0, nentry=0), report=rep)
+        if "field:gnet:toml:%s:multi" % name not in rep:
+            raise Machinery("binding self-test (lists): a leaked %s in entry %d is not flagged (%s)" % (name, j + 1, rep))
+        fake = json.loads(json.dumps(rec))
+        fake["entries"][i], fake["entries"][j] = fake["entries"][j], fake["entries"][i]
+        rep = []
+        judge(ctx, l, {**{(l["id"], f): res[(l["id"], f)] for f in l["texts"]}, (l["id"], "toml"): fake}, env,
+              dict(nload=0, nfield=0, nentry=0), report=rep)
+        if not any(s.startswith("field:gnet:toml:key") for s in rep):
+            raise Machinery("binding self-test (lists): entries in exchanged order are not flagged (%s)" % rep)
+        ctx.log("binding self-test (lists): a leaked option and exchanged entries are flagged")
+        return
+    if ctx.violations or ctx.known_hits:
+        ctx.note("binding self-test (lists) skipped: no clean list with a grafanaNet boolean set early and left out later")
+        return
+    raise Machinery("binding self-test (lists): no clean list with a grafanaNet boolean set early and left out later")
